@@ -170,4 +170,94 @@ Attachments(e, vendor, conf) ==
   IF \E a \in A : ~ValidAttachment(a) THEN Err("InvalidAttachment")
   ELSE Ok({a \in A : /\ (vendor # NoStr => AttVendor(a) = vendor)
                      /\ (conf # NoStr => AttConform(a) = conf)})
+
+(* ---- expressions, requests, responses, events (extension/expressions/*.rs) --------------------*)
+(* atoms: <<"fn", "k", n>> / <<"fn", "n", name>> a function (#6.40006 of an integer / a text);       *)
+(*        <<"param", "k", n>> / <<"param", "n", name>> a parameter (#6.40007);                       *)
+(*        <<"reqid", i>>, <<"respid", i>>, <<"evid", i>> an ARID i tagged request (#6.40004),       *)
+(*        response (#6.40005), event (#6.40026); <<"respunknown", n>> #6.40005 of known value n;     *)
+(*        <<"date", d>> a date (#6.1)                                                                 *)
+KvBody == 100  KvResult == 101  KvError == 102  KvOk == 103  KvDate == 16  KvUnknown == 17  KvContent == 108
+FnLeaf(f)    == Leaf(<<"fn", f[1], f[2]>>)
+ParamLeaf(q) == Leaf(<<"param", q[1], q[2]>>)
+DateLeaf(d)  == Leaf(<<"date", d>>)
+NoDate == "~none~"
+IsFnLeaf(e)    == IsLeaf(e) /\ e[2][1] = "fn"
+IsParamLeaf(e) == IsLeaf(e) /\ e[2][1] = "param"
+IsDateLeaf(e)  == IsLeaf(e) /\ e[2][1] = "date"
+RECURSIVE SubjLeaf(_)
+SubjLeaf(e) == IF IsNode(e) THEN SubjLeaf(e[2]) ELSE e       \* what extract_subject looks at
+
+(* Expression::new(f).with_parameter(p1, v1)...: parameters are added one by one (dedupe by digest) *)
+RECURSIVE WithParams(_, _)
+WithParams(e, ps) == IF ps = << >> THEN e
+                     ELSE WithParams(Val(AddAssertionEnv(e, Assn(ParamLeaf(Head(ps)[1]), Head(ps)[2]))), Tail(ps))
+ExprEnv(f, ps) == WithParams(FnLeaf(f), ps)
+AddNote(e, note) == IF note = "" THEN e ELSE AddAssertion(e, KV(KvNote), Str(note))
+AddDate(e, d)    == IF d = NoDate THEN e ELSE AddAssertion(e, KV(KvDate), DateLeaf(d))
+RequestEnv(f, ps, id, note, d) ==
+  AddDate(AddNote(AddAssertion(Leaf(<<"reqid", id>>), KV(KvBody), ExprEnv(f, ps)), note), d)
+EventEnv(content, id, note, d) ==
+  AddDate(AddNote(AddAssertion(Leaf(<<"evid", id>>), KV(KvContent), content), note), d)
+ResponseEnv(variant, id, payload) ==
+  CASE variant = "success" -> AddAssertion(Leaf(<<"respid", id>>), KV(KvResult), payload)
+    [] variant = "failure" -> AddAssertion(Leaf(<<"respid", id>>), KV(KvError), payload)
+    [] variant = "early"   -> AddAssertion(Leaf(<<"respunknown", KvUnknown>>), KV(KvError), payload)
+
+(* parsing, as the TryFrom impls do it *)
+OptionalString(e, kv) ==        \* extract_optional_object_for_predicate::<String>
+  LET A == AssertionsWithPredicate(e, KV(kv)) IN
+  IF A = {} THEN Ok("")
+  ELSE IF Cardinality(A) > 1 THEN Err("AmbiguousPredicate")
+  ELSE LET o == SubjLeaf(Subject(CHOOSE a \in A : TRUE)[3]) IN
+       IF IsStr(o) THEN Ok(o[2][2]) ELSE Err("not a string")
+OptionalDate(e) ==
+  LET A == AssertionsWithPredicate(e, KV(KvDate)) IN
+  IF A = {} THEN Ok(NoDate)
+  ELSE IF Cardinality(A) > 1 THEN Err("AmbiguousPredicate")
+  ELSE LET o == SubjLeaf(Subject(CHOOSE a \in A : TRUE)[3]) IN
+       IF IsDateLeaf(o) THEN Ok(o[2][2]) ELSE Err("not a date")
+ParamsOf(body) == {<< <<Subject(a)[2][2][2], Subject(a)[2][2][3]>>, Dg(Subject(a)[3])>> :
+                     a \in {x \in Assertions(body) : IsAssn(Subject(x)) /\ IsParamLeaf(Subject(x)[2])}}
+(* Function equality as implemented: known functions by number, named ones by name *)
+SameFunction(f, g) == f[1] = g[1] /\ f[2] = g[2]
+NoFn == <<"none", 0>>
+ParseExpression(e, expected) ==
+  LET s == SubjLeaf(e) IN
+  IF ~IsFnLeaf(s) THEN Err("not a function")
+  ELSE LET f == <<s[2][2], s[2][3]>> IN
+       IF expected # NoFn /\ ~SameFunction(f, expected) THEN Err("unexpected function")
+       ELSE Ok(<<"expression", f, <<"set", ParamsOf(e)>>>>)
+ParseRequest(e, expected) ==
+  LET body == ObjectForPredicate(e, KV(KvBody)) IN
+  IF ~IsOk(body) THEN body
+  ELSE LET x == ParseExpression(Val(body), expected)
+           note == OptionalString(e, KvNote)
+           d == OptionalDate(e) IN
+       IF ~IsOk(x) THEN x
+       ELSE IF ~(IsLeaf(Subject(e)) /\ Subject(e)[2][1] = "reqid") THEN Err("not a request id")
+       ELSE IF ~IsOk(note) THEN note
+       ELSE IF ~IsOk(d) THEN d
+       ELSE Ok(<<"request", Val(x)[2], Val(x)[3], Subject(e)[2][2], Val(note), Val(d)>>)
+ParseEvent(e) ==
+  LET c == ObjectForPredicate(e, KV(KvContent))
+      note == OptionalString(e, KvNote)
+      d == OptionalDate(e) IN
+  IF ~IsOk(c) THEN c
+  ELSE IF ~(IsLeaf(Subject(e)) /\ Subject(e)[2][1] = "evid") THEN Err("not an event id")
+  ELSE IF ~IsOk(note) THEN note
+  ELSE IF ~IsOk(d) THEN d
+  ELSE Ok(<<"event", Dg(Val(c)), Subject(e)[2][2], Val(note), Val(d)>>)
+ParseResponse(e) ==
+  LET r == AssertionWithPredicate(e, KV(KvResult))
+      x == AssertionWithPredicate(e, KV(KvError))
+      s == Subject(e) IN
+  IF IsOk(r) = IsOk(x) THEN Err("must have either a result or an error")
+  ELSE IF IsOk(r)
+       THEN IF IsLeaf(s) /\ s[2][1] = "respid" THEN Ok(<<"response", "success", s[2][2], Dg(Subject(Val(r))[3])>>)
+            ELSE Err("not a response id")
+       ELSE IF IsLeaf(s) /\ s[2][1] = "respid" THEN Ok(<<"response", "failure", s[2][2], Dg(Subject(Val(x))[3])>>)
+            ELSE IF IsLeaf(s) /\ s[2][1] = "respunknown" /\ s[2][2] = KvUnknown
+                 THEN Ok(<<"response", "early", 0, Dg(Subject(Val(x))[3])>>)
+            ELSE Err("not a response id")
 =============================================================================
